@@ -512,6 +512,30 @@ func (p *pparser) pipe() stream.Stream[pv] {
 			m[x] = true
 		}
 		return stream.Map(stream.FromMapKeys(m), func(x int64) pv { return pv{I: x} })
+	case "frommapent", "frommapval":
+		xs, err := parseInts(p.next())
+		if err != nil && p.err == nil {
+			p.err = err
+		}
+		if t == "frommapval" {
+			m := map[int]int64{}
+			for i, x := range xs {
+				m[i] = x
+			}
+			return stream.Map(stream.FromMapValues(m), func(x int64) pv { return pv{I: x} })
+		}
+		m := map[int64]int{}
+		for i, x := range xs {
+			m[x] = i
+		}
+		return stream.Map(stream.FromMapEntries(m), func(e shpanstream.Entry[int64, int]) pv { return pv{I: e.Key} })
+	case "fromiter2":
+		// FromIterator2 over an ordered Seq2 (index, value)
+		xs, err := parseInts(p.next())
+		if err != nil && p.err == nil {
+			p.err = err
+		}
+		return stream.Map(stream.FromIterator2(slices.All(xs)), func(e shpanstream.Entry[int, int64]) pv { return pv{I: e.Value} })
 	case "flatmap":
 		return stream.FlatMap(p.pipe(), func(v pv) stream.Stream[pv] { return stream.Just(v, pv{I: v.key() + 100}) })
 	case "peek":
